@@ -141,7 +141,12 @@ def gen_case(rng, tier, g):
                   for _ in range(rec.nsrc)]
     # build sides stay short
     for bi in rec.build:
-        tables[bi] = gen_table(rng, 8, minrows=0, nfields=nf, ragged=False)
+        if rec.profile == 'sorted':
+            tables[bi] = enc_table(gen_sorted_table(rng.randint(0, 6), nf,
+                                                    stride=2))
+        else:
+            tables[bi] = gen_table(rng, 8, minrows=0, nfields=nf,
+                                   ragged=False)
     ncons = rng.choice([1, 1, 2, 3])
     consumers = []
     # views that yield items rather than rows have no header row: the table
@@ -489,6 +494,24 @@ def _one_length(e, case, total, log, sb, poison):
                                    '%d; bound %d)'
                                    % (tid, d, pulls[tid][i], i, period,
                                       bound))
+        sw = getattr(rec, 'stops_with', None)
+        if sw is not None and len(stack) == 1:
+            # a merge of sorted inputs that yields nothing once input `sw` has
+            # ended: whatever the consumers asked for, nothing of the other
+            # input beyond the last key of `sw` (plus the rows of one key
+            # group and a look-ahead) is needed
+            kb = max([r[0] for r in tables[sw][1:]] + [-1])
+            for i in streamed:
+                bound = 2 * kb + 8 + 12
+                for tid in res:
+                    factor = 2 if any(c['kind'] in TWICE for c in cons) else 1
+                    if pulls[tid][i] > factor * bound and total > 4 * bound:
+                        raise _Bad('reads-on-after-other-input-ended',
+                                   'consumer %s pulled %d data rows from '
+                                   'source %d although input %d ends at key '
+                                   '%r, which source %d passes after about '
+                                   '%d rows' % (tid, pulls[tid][i], i, sw,
+                                                kb, i, 2 * kb + 8))
         exhausted = any(w.s[i].pulls('data') >= getattr(w.s[i], 'total',
                                                          total) - 1
                         for i in streamed)
